@@ -99,6 +99,8 @@ class Prov:
         self._closure_sites = None
         self.through_params = False
         self.callers = None
+        self.default_tp = 'closures'   # closure parameters are always followed into the payload of the std combinator the closure is passed to
+        self.default_callers = None
         self.stop_tags = set()
         self.inline = True
 
@@ -543,11 +545,30 @@ class Prov:
             return self._phi([self.resolve_env(x) for x in t[1]])
         return t
 
-    def root(self, t, depth=48, through_params=False, stop_tags=(), inline=True, callers=None):
+    def following(self, callers):
+        """context manager: inside it, root() follows parameters into call sites located in the given bodies by default (used by rules that start at a
+        write site and must reach the place where the value was obtained, however many helper functions lie in between)"""
+        import contextlib
+
+        @contextlib.contextmanager
+        def cm():
+            old = (self.default_tp, self.default_callers)
+            self.default_tp, self.default_callers = True, frozenset(callers)
+            try:
+                yield self
+            finally:
+                self.default_tp, self.default_callers = old
+        return cm()
+
+    def root(self, t, depth=48, through_params=None, stop_tags=(), inline=True, callers=None):
         """Peel projections and transparent calls.  Returns a list of (root, path) alternatives
         (several for phi).  path is a tuple of steps from the root outwards.  With through_params,
         a parameter is followed into the callers' arguments (context-insensitively)."""
         out = []
+        if through_params is None:
+            through_params = self.default_tp
+            if callers is None and through_params:
+                callers = self.default_callers
         old = (self.through_params, self.stop_tags, self.inline, self.callers)
         self.through_params = through_params
         self.stop_tags = set(stop_tags)
